@@ -4,4 +4,5 @@ CONSTANTS
   MaxLen = 5
   MaxOps = 3
   CountsIfndef = TRUE
+  CountsCloses = TRUE
 INVARIANT EmitC
